@@ -35,7 +35,9 @@ JWS_REC = ["HS256", "RS256", "ES256"]
 JWE_ALG_REG = list(g.RFC_ALGS)
 JWE_ENC_REG = list(g.RFC_ENCS)
 JWE_REC = ["RSA-OAEP", "A128KW", "A256KW", "dir", "ECDH-ES", "ECDH-ES+A128KW", "ECDH-ES+A256KW"] + g.RFC_ENCS + ["DEF"]
-UNKNOWN = ["HS257", "hs256", "HS256 ", "RS1", "foo", "", "A128KW ", "a128kw", "None", "NONE", "ES256k", "A128GCMX", "def", "GZIP"]
+UNKNOWN = ["HS257", "hs256", "HS256 ", "RS1", "foo", "", "A128KW ", "a128kw", "None", "NONE", "ES256k", "A128GCMX", "def", "GZIP",
+           # names other registries and later RFCs know (RFC 9864 fully-specified names, COSE / JCA spellings): not listed, so not used - whatever they could be resolved to
+           "Ed25519", "Ed448", "ESP256", "ESP384", "ESP512", "ESB256", "EDDSA", "Ed25519ph", "SHA256withRSA", "HMAC-SHA256", "RSA-OAEP-384", "ECDH-ES+A128GCMKW", "A128CBC", "RSASSA-PSS", "ML-DSA-44"]
 NONSTR = [5, None, ["HS256"], {"a": 1}, True, 1.5]
 INNER = {"ECDH-ES+A128KW": "A128KW", "ECDH-ES+A192KW": "A192KW", "ECDH-ES+A256KW": "A256KW", "PBES2-HS256+A128KW": "A128KW",
          "PBES2-HS384+A192KW": "A192KW", "PBES2-HS512+A256KW": "A256KW", "ECDH-1PU+A128KW": "A128KW", "ECDH-1PU+A192KW": "A192KW",
@@ -461,6 +463,35 @@ def kdf_algorithm_name(ctx, rng):
                                       f"(unauthenticated) member the token no longer decrypts: {d.exc!r}", {**case, "token": o.value})
 
 
+def alias_names(mon: Mon, rng):
+    """other spellings of an algorithm the caller DID list (the fully-specified names of RFC 9864, another case, names of other registries), with the key that
+    suits the listed algorithm and - on the consuming side - a signature that is valid under it: the name in the header is not in the list, so it is not used"""
+    j = J.load()
+    payload = b'{"sub":"c05 alias"}'
+    pairs = [("Ed25519", "EdDSA", "EdDSA:Ed25519"), ("Ed448", "EdDSA", "EdDSA:Ed448"), ("EDDSA", "EdDSA", "EdDSA:Ed25519"), ("eddsa", "EdDSA", "EdDSA:Ed25519"),
+             ("ESP256", "ES256", "ES256"), ("ES256k", "ES256K", "ES256K"), ("es256", "ES256", "ES256"), ("hs256", "HS256", "HS256"), ("HS256 ", "HS256", "HS256"),
+             ("RSASSA-PSS", "PS256", "PS256"), ("RS-256", "RS256", "RS256"), ("HmacSHA256", "HS256", "HS256"), ("SHA256withECDSA", "ES256", "ES256")]
+    for name, canonical, keyalg in pairs:
+        key = key_for(keyalg)
+        jk, jpub, rk = j.key(key), j.key(gen.public_jwk(key)), RefKey.from_jwk(key)
+        for allow in ([canonical], [canonical, "HS512"], JWS_REG):
+            U = [n for n in JWS_REG if n in allow]
+            for mode in ("algorithms", "registry"):
+                kw = (lambda: {"algorithms": list(allow)}) if mode == "algorithms" else (lambda: {"registry": j.jws.JWSRegistry(algorithms=list(allow))})
+                d0 = {"name": name, "allow": allow, "mode": mode, "bad": name, "alias_of": canonical}
+                mon.run({**d0, "op": "sign", "form": "compact"}, U, "unsupported", lambda: j.jws.serialize_compact({"alg": name}, payload, jk, **kw()))
+                mon.run({**d0, "op": "sign", "form": "flat"}, U, "unsupported", lambda: j.jws.serialize_json({"protected": {"alg": name}}, payload, jk, **kw()))
+                mon.run({**d0, "op": "jwt.encode", "form": "jws"}, U, "unsupported", lambda: j.jwt.encode({"alg": name}, {"sub": "x"}, jk, **kw()))
+                p64 = b64u_enc(json.dumps({"alg": name}, separators=(",", ":")).encode())
+                sig = b64u_enc(rjws.sign_raw(canonical, rk, (p64 + "." + b64u_enc(payload)).encode()))
+                t_c = f"{p64}.{b64u_enc(payload)}.{sig}"
+                t_f = {"payload": b64u_enc(payload), "protected": p64, "signature": sig}
+                mon.run({**d0, "op": "verify", "form": "compact"}, U, "unsupported", lambda: j.jws.deserialize_compact(t_c, jpub, **kw()))
+                mon.run({**d0, "op": "verify", "form": "flat"}, U, "unsupported", lambda: j.jws.deserialize_json(copy.deepcopy(t_f), jpub, **kw()))
+                mon.run({**d0, "op": "jwt.decode", "form": "jws"}, U, "unsupported", lambda: j.jwt.decode(t_c, jpub, **kw()))
+                mon.ctx.count("alias_name_cases", 6)
+
+
 def unlisted_recipient_beside_a_listed_one(ctx, rng):
     """a general JSON JWE with several recipients, one of which names an algorithm the caller did not list (or nobody knows): the call fails - also
     when the caller is content with any one recipient (verify_all_recipients=False) and its own recipient comes first"""
@@ -540,6 +571,8 @@ def run_shard(ctx):
                     jwe_ops(mon, "A128KW", "A128GCM", copy.deepcopy(z), copy.deepcopy(allow), rng.choice(["algorithms", "registry", "list+registry"]), rng)
         if ctx.shard == 3:
             unlisted_recipient_beside_a_listed_one(ctx, rng)
+        if ctx.shard == 4:
+            alias_names(mon, rng)
         if ctx.shard == 2:
             J.register_drafts()
             mon.world.drafts = True
